@@ -19,10 +19,11 @@ eleven positive stage versions, allocation stacks sorted by allocation stage wit
 one stage ahead, well-formed depends-on / computed-by / invalidates stages) and version stamps (`Ghost`). -/
 def WGood (w : World) : Prop := ∀ st, some st ∈ w.sts → Inv st ∧ Ghost st
 
-/-- a history all of whose operations are legal when they are issued -/
+/-- a history all of whose operations are legal when they are issued and that follows the marking discipline
+`strict` (an entry is marked valid only once its subsystem has reached the entry's depends-on stage) -/
 def legalRun : World → List Op → Prop
   | _, [] => True
-  | w, op :: ops => legal w op = true ∧ legalRun (step w op) ops
+  | w, op :: ops => legal w op = true ∧ strict w op = true ∧ legalRun (step w op) ops
 
 theorem WGood.setSlot {w : World} (h : WGood w) (k : Nat) (o : Option St)
     (ho : ∀ st, o = some st → Inv st ∧ Ghost st) (snap : List Nat) :
@@ -47,7 +48,8 @@ theorem wgood_init (n : Nat) : WGood { sts := [some { subs := List.replicate n {
 
 /-- `Inv` and `Ghost` are preserved by every legal operation (single-State operations, copy construction,
 copy assignment, moves, clear, setNumSubsystems, addSubsystem). -/
-theorem wgood_step {w : World} (h : WGood w) (op : Op) (hl : legal w op = true) : WGood (step w op) := by
+theorem wgood_step {w : World} (h : WGood w) (op : Op) (hl : legal w op = true) (hs : strict w op = true) :
+    WGood (step w op) := by
   cases op with
   | on k o =>
     simp only [step]
@@ -55,9 +57,10 @@ theorem wgood_step {w : World} (h : WGood w) (op : Op) (hl : legal w op = true) 
     | none => simpa [hk] using h
     | some st =>
       simp only [legal, hk] at hl
+      simp only [strict, hk] at hs
       have hst := h st (live_mem hk)
       exact h.setSlot k _ (fun st' hst' => by
-        cases hst'; exact ⟨hst.1.stepS o hl, Ghost.stepS hst.1 hst.2 o hl⟩) _
+        cases hst'; exact ⟨hst.1.stepS o hl, Ghost.stepS hst.1 hst.2 o hl hs⟩) _
   | copyNew k =>
     simp only [step]
     cases hk : w.live k with
@@ -136,7 +139,7 @@ theorem wgood_run (ops : List Op) {w : World} (h : WGood w) (hl : legalRun w ops
   | nil => exact h
   | cons op ops ih =>
     simp only [run, List.foldl_cons]
-    exact ih (wgood_step h op hl.1) hl.2
+    exact ih (wgood_step h op hl.1 hl.2.1) hl.2.2
 
 /-- **Inv**: in every reachable state the system stage never exceeds any subsystem's stage. -/
 theorem system_stage_le_subsystem_stage {st : St} (h : Inv st) {s : Nat} {sb : Sub} (hs : st.subs[s]? = some sb) :
@@ -272,7 +275,7 @@ theorem filter_map_static_dv (l : List DV) (g : Nat) :
     · simp [h, ih]
     · simp [h, ih]
 
-theorem unfresh_of_static (e : CE) (g c : Nat) : (e.static).unfresh g c = e.static := by
+theorem unfresh_of_static (e : CE) (g : Nat) (c : Nat) : (e.static).unfresh g c = e.static := by
   unfold CE.unfresh; split <;> rfl
 
 /-- **stacks_pop_with_stage.**  In a reachable state, invalidating stage `g` restores every subsystem that had
@@ -339,7 +342,7 @@ theorem stacks_pop_with_stage {st : St} (hI : Inv st) (g : Nat) (hg : 2 ≤ g) {
       rw [e2, popBack_eq_filter CE.alloc _ _ hsc, ← filter_map_static_ce, List.map_map]
       apply List.map_congr_left
       intro e _
-      exact unfresh_of_static e _ _
+      exact unfresh_of_static e _ sb.cur
     · have hsd : ((sb.dvs.map DV.static).map DV.alloc).Pairwise (· ≤ ·) := hg'.dvs.sorted
       rw [e3, popBack_eq_filter DV.alloc _ _ hsd, ← filter_map_static_dv]
     · rw [e4]; exact popBack_eq_filter CV.alloc _ _ hg'.q.sorted
@@ -445,17 +448,18 @@ theorem unmark_clears_fresh (st : St) (k : Key) (e : CE) (he : st.ce? k = some e
   simp only [Option.map_some, CE.invN]
   rw [if_neg (by omega)]
 
-/-- invalidating the depends-on stage clears freshness (part 3): after `restoreToStage(g)` from a higher stage
-every surviving entry whose depends-on stage was valid and is now invalid is not fresh -/
+/-- changing a variable of a stage ≤ the depends-on stage clears freshness (part 3): after `restoreToStage(g)` of a
+subsystem above `g` *every* surviving entry whose depends-on stage is above `g` is not fresh — whether or not the
+subsystem had reached that stage (specification-level ghost) -/
 theorem restore_clears_fresh (sb : Sub) (g : Nat) (hg : 1 ≤ g) (hc : g < sb.cur) :
-    ∀ e ∈ (sb.restore g).ces, g < e.dep → e.dep ≤ sb.cur → e.fresh = false := by
-  intro e' he' h1 h2
+    ∀ e ∈ (sb.restore g).ces, g < e.dep → e.fresh = false := by
+  intro e' he' h1
   rw [Sub.restore, if_neg (by omega), if_neg (by omega)] at he'
   simp only at he'
   obtain ⟨e, _, rfl⟩ := List.mem_map.mp he'
-  simp only [CE.unfresh_dep] at h1 h2
+  simp only [CE.unfresh_dep] at h1
   unfold CE.unfresh
-  rw [if_pos ⟨h1, h2⟩]
+  rw [if_pos h1]
 
 /-- a copied entry is fresh only if its depends-on stage was copied (≤ Instance) and it has no prerequisites (part 4) -/
 theorem copy_clears_fresh (sb : Sub) : ∀ e ∈ (Sub.copyOf sb).ces, e.fresh = true → e.dep ≤ 3 ∧ e.hasPre = false := by
